@@ -142,6 +142,10 @@ pub fn run(args: &[String]) {
             for g in (f + 1)..nfiles {
                 if includer[g as usize] == Some(f + 1) {
                     v.push(include_item(&mut rng, g));
+                    // the same file included again by the same includer (possibly under another spelling)
+                    if rng.below(5) == 0 {
+                        v.push(include_item(&mut rng, g));
+                    }
                 }
             }
             nested.insert(f, v);
@@ -167,6 +171,10 @@ pub fn run(args: &[String]) {
                 if rng.below(2) == 0 {
                     tag += 1;
                     main.push(Item::Mark(tag));
+                }
+                // the same file included a second (third) time from the main program
+                while rng.below(4) == 0 {
+                    main.push(include_item(&mut rng, f));
                 }
             }
         }
